@@ -43,7 +43,7 @@ void leak(const char *id) {
 #define CT_RUN1(call) { CT_RESET() call; ct_n1 = ct_n; ct_n = 0; ct_mode = 1; }
 #define CT_RUN2(call) { call; ct_mode = 0; }
 #define CT_EQUAL (ct_n == ct_n1 && ct_t1 == ct_t2 && !ct_ovf)
-#define CT_SAME(text) __CPROVER_assert(CT_EQUAL, text)
+#define CT_SAME(text) { __CPROVER_assert(!ct_ovf, "C06 recorder: trace length within CT_MAX (harness sizing, not a property of the code)"); __CPROVER_assert(CT_EQUAL, text); }
 /* the usual pair: same public arguments, independent secret arguments */
 #define CT2(text, call1, call2) CT_RUN1(call1) CT_RUN2(call2) CT_SAME(text)
 
